@@ -103,11 +103,37 @@ func TypeIsObject(d Datum) (bool, string) {
 // Used to convert nodesets as well as strings.  Returns NaN in cases of
 // error.
 func numberFromString(numStr string) float64 {
-	num, err := strconv.ParseFloat(strings.TrimSpace(numStr), 0)
+	// XPath 1.0 section 4.4: optional whitespace (#x20 #x9 #xD #xA only), an
+	// optional minus sign, a Number, optional whitespace.  Anything else that
+	// strconv.ParseFloat would take ("1e3", "+5", "0x1p4", "1_0", "inf") is
+	// NaN.  "Infinity" and "-Infinity" are kept as they are the only way to
+	// write those values in an expression.
+	numStr = strings.Trim(numStr, " \t\r\n")
+	if !isXpathNumber(numStr) && numStr != "Infinity" && numStr != "-Infinity" {
+		return math.NaN()
+	}
+	num, err := strconv.ParseFloat(numStr, 64)
 	if err != nil {
 		return math.NaN()
 	}
 	return num
+}
+
+// isXpathNumber reports whether s is '-'? (Digits ('.' Digits?)? | '.' Digits)
+func isXpathNumber(s string) bool {
+	s = strings.TrimPrefix(s, "-")
+	digits, dots := 0, 0
+	for i := 0; i < len(s); i++ {
+		switch {
+		case s[i] >= '0' && s[i] <= '9':
+			digits++
+		case s[i] == '.':
+			dots++
+		default:
+			return false
+		}
+	}
+	return digits > 0 && dots <= 1
 }
 
 // Purely for testing - allows us to exercise error handling code.
